@@ -10,6 +10,8 @@ package main
 // pf = <src>/<kp>/<val>:
 //   src  e<j>r<k> existence proof of item j in store version k | a<j>r<k> absence proof of item j's key in version k |
 //        e<j>p1 existence proof of item j (5 or 6) in the PRIVATE store p1, a state nobody signed (header app hash p1) |
+//        e<j>q1 / a<j>q1 (cosmos) ICS-23 existence / non-existence proof ops (ics23:iavl or ics23:simple for the store,
+//        ics23:simple for the multistore) from the hand-built commitment state q1 (tmics23.go), header app hash q1 |
 //        x bytes that do not decode as a merkle.Proof
 //   kp   = the key path of the src item | k<j> the key path of item j | - empty
 //   val  v<j> the message bytes of item j | ! Extra bytes that do not decode as a CosmosProofValue
@@ -78,6 +80,7 @@ type tmStoreT struct {
 	pms   *rootmulti.Store // private store: one version, holds items 5 and 6
 	pkeys map[string]*sdk.KVStoreKey
 	proot []byte
+	ics   *tmIcsState // ICS-23 commitment state q1 (cosmos router only)
 	roots map[int][]byte
 	items map[string]map[int]*tmItem // router -> item id -> item
 }
@@ -175,6 +178,9 @@ func tmStore() *tmStoreT {
 		add("okex", 7, "evm", tmEvmKey(other, 7), m7, ethcrypto.Keccak256(m7), 1)
 		m8 := tmMsg([]byte("source-tx-hash-8"), 8)
 		add("okex", 8, "evm", []byte("short-key"), m8, ethcrypto.Keccak256(m8), 1)
+		// cosmos 7, 8: messages that exist only in the ICS-23 state q1 (stores s and acc)
+		st.items["cosmos"][7] = &tmItem{store: "s", key: []byte("ccm-request-7"), value: m7, keyPath: tmKeyPath("s", []byte("ccm-request-7"))}
+		st.items["cosmos"][8] = &tmItem{store: "acc", key: []byte("ccm-request-8"), value: m8, keyPath: tmKeyPath("acc", []byte("ccm-request-8"))}
 		m9 := tmMsg([]byte("source-tx-hash-9"), 9)
 		add("okex", 9, "acc", tmEvmKey(tmCCMC, 9), m9, ethcrypto.Keccak256(m9), 1)
 		add("cosmos", 9, "acc", []byte("ccm-request-9"), m9, m9, 1)
@@ -211,6 +217,7 @@ func tmStore() *tmStoreT {
 			}
 		}
 		st.pms, st.pkeys, st.proot = pms, pkeys, pms.Commit().Hash
+		st.ics = tmNewIcsState(st.items["cosmos"])
 		tmStoreV = st
 	})
 	return tmStoreV
@@ -227,6 +234,9 @@ func (f *tmFam) appHash(s string) []byte {
 	if s == "p1" {
 		return tmStore().proot
 	}
+	if s == "q1" && f.rt.name() == "cosmos" {
+		return tmStore().ics.multi.root
+	}
 	return nil
 }
 
@@ -235,6 +245,7 @@ type tmPf struct {
 	srcItem int
 	srcVer  int
 	priv    bool   // e<j>p1: proof from the private store
+	ics     bool   // e<j>q1 / a<j>q1: ICS-23 proof ops from the commitment state q1
 	kp      string // "=", "-", "k<j>"
 	val     string // "v<j>", "!"
 }
@@ -252,14 +263,15 @@ func tmParsePf(s string) (*tmPf, bool) {
 		if len(src) < 4 || (src[0] != 'e' && src[0] != 'a') {
 			return nil, false
 		}
-		r := strings.IndexAny(src, "rp")
+		r := strings.IndexAny(src, "rpq")
 		if r < 0 {
 			return nil, false
 		}
 		p.priv = src[r] == 'p'
+		p.ics = src[r] == 'q'
 		j, err1 := strconv.Atoi(src[1:r])
 		k, err2 := strconv.Atoi(src[r+1:])
-		if err1 != nil || err2 != nil || k < 1 || k > 2 || j < 0 || j > 9 || (p.priv && (k != 1 || src[0] != 'e')) {
+		if err1 != nil || err2 != nil || k < 1 || k > 2 || j < 0 || j > 9 || (p.priv && (k != 1 || src[0] != 'e')) || (p.ics && k != 1) {
 			return nil, false
 		}
 		p.srcKind, p.srcItem, p.srcVer = src[0], j, k
@@ -285,6 +297,9 @@ func tmParsePf(s string) (*tmPf, bool) {
 func (st *tmStoreT) holds(it *tmItem, appHash []byte) bool {
 	if it == nil {
 		return false
+	}
+	if bytes.Equal(st.ics.multi.root, appHash) {
+		return st.ics.holds(it)
 	}
 	if bytes.Equal(st.proot, appHash) {
 		if it.pstored == nil {
@@ -361,10 +376,21 @@ func (f *tmFam) resolvePf(s string, marshal func(interface{}) ([]byte, error)) (
 		if pf.priv {
 			present = in.src.pstored != nil
 		}
-		if (pf.srcKind == 'e') != present {
-			return nil, false
+		if pf.ics {
+			if f.rt.name() != "cosmos" {
+				return nil, false
+			}
+			var pr *merkle.Proof
+			if pr, present = st.ics.proofOf(in.src); pr == nil || (pf.srcKind == 'e') != present {
+				return nil, false
+			}
+			in.proof = pr
+		} else {
+			if (pf.srcKind == 'e') != present {
+				return nil, false
+			}
+			in.proof = st.proofOf(in.src, pf.srcVer, pf.priv)
 		}
-		in.proof = st.proofOf(in.src, pf.srcVer, pf.priv)
 		bz, err := marshal(*in.proof)
 		if err != nil {
 			panic(err)
@@ -587,7 +613,8 @@ func (f *tmFam) genDep(r *hx.Run) {
 	r.Rule("deposits of the " + rn + " router: real existence / absence proofs from a committed multistore (IAVL, two versions) x " +
 		"header shapes (justified, below two thirds, epoch-changing, other app hash, heights below/at/above the tracked one, " +
 		"undecodable, missing) x proof shapes (right, other value, other key path, other version, empty key path, absence proof " +
-		"of a crafted message, undecodable proof / proof value, non-message value, wrong module / contract / key length, replay); " +
+		"of a crafted message, undecodable proof / proof value, non-message value, wrong module / contract / key length, replay; " +
+		"forged headers quoting the stored block hash with a private-store proof; cosmos: ICS-23 existence / non-existence ops); " +
 		"distinct non-trivial = (block version, shape, outcome)")
 	rounds := r.Pick(4, 80)
 	id := 0
@@ -713,6 +740,24 @@ func (f *tmFam) genDep(r *hx.Run) {
 				if rn == "okex" {
 					label("other-contract-key", r.Do(verb+" "+hA+a+"e7r1/=/v7"))
 					label("short-proof-key", r.Do(verb+" "+hA+a+"e8r1/=/v8"))
+				}
+				if rn == "cosmos" {
+					// ICS-23 commitment ops (ics23:iavl / ics23:simple for the store, ics23:simple for the multistore)
+					hQ := mkHdr(h0, "q1", 0)
+					label("ics23-absence-made-up-value", r.Do(verb+" "+hQ+a+fmt.Sprintf("a%dq1/=/v%d", 5+r.Rng.Intn(2), 5+r.Rng.Intn(2))))
+					label("ics23-absence-made-up-value", r.Do(verb+" "+hQ+a+"a5q1/=/v5"))
+					label("ics23-absence-of-unstored-message", r.Do(verb+" "+hQ+a+"a2q1/=/v2"))
+					label("ics23-absence-other-key-path", r.Do(verb+" "+hQ+a+"a2q1/k0/v0"))
+					label("ics23-absence-empty-key-path", r.Do(verb+" "+hQ+a+"a5q1/-/v5"))
+					label("ics23-other-value", r.Do(verb+" "+hQ+a+"e1q1/=/v0"))
+					label("ics23-op-key-differs-from-key-path", r.Do(verb+" "+hQ+a+"e1q1/k0/v1"))
+					label("ics23-existence-empty-key-path", r.Do(verb+" "+hQ+a+"e7q1/-/v7"))
+					label("ics23-not-a-message", r.Do(verb+" "+hQ+a+"e3q1/=/v3"))
+					label("ics23-under-other-app-hash", r.Do(verb+" "+hA+a+"e7q1/=/v7"))
+					label("iavl-proof-under-ics23-app-hash", r.Do(verb+" "+hQ+a+"e0r1/=/v0"))
+					label("ics23-right-iavl-spec", r.Do(verb+" "+hQ+a+"e7q1/=/v7"))
+					label("ics23-right-simple-spec", r.Do(verb+" "+hQ+a+"e8q1/=/v8"))
+					label("ics23-replay", r.Do(verb+" "+hQ+a+"e7q1/=/v7"))
 				}
 				label("header-below-two-thirds", r.Do(verb+" "+hBad+a+"e0r1/=/v0"))
 				label("header-bad-signature", r.Do(verb+" "+hSig+a+"e0r1/=/v0"))
